@@ -197,15 +197,15 @@ func (c *chk) fn() func(proto.Message) error {
 // ---------- write options ----------
 
 type fwo struct {
-	time         *int64
-	update       []fld
-	hasUpdate    bool
-	expected     *fmsg
-	expectAbsent bool
-	check        *chk
-	allowMissing bool
+	time          *int64
+	update        []fld
+	hasUpdate     bool
+	expected      *fmsg
+	expectAbsent  bool
+	check         *chk
+	allowMissing  bool
 	before, after *icpt
-	create       bool
+	create        bool
 }
 
 func (o *fwo) coq() string {
